@@ -115,5 +115,63 @@ theorem push_flatten (q : Net) (c : Bytes) : (push q c).flatten = q.flatten ++ c
   · simp only [h, ↓reduceIte]; simp [List.isEmpty_iff.mp h]
   · simp [h]
 
+
+theorem read_props {max : Nat} (hmax : 0 < max) {q q' : Net} {c : Bytes}
+    (hq : ∀ ch ∈ q, ch ≠ []) (h : read max q = some (c, q')) :
+    c ≠ [] ∧ size q' < size q ∧ (∀ ch ∈ q', ch ≠ []) := by
+  cases q with
+  | nil => simp [read] at h
+  | cons c0 q0 =>
+    have hc0 : c0 ≠ [] := hq c0 (by simp)
+    have hl0 : 0 < c0.length := List.length_pos_iff.mpr hc0
+    simp only [read] at h
+    by_cases hc : c0.length ≤ max
+    · simp only [hc, ↓reduceIte, Option.some.injEq, Prod.mk.injEq] at h
+      obtain ⟨rfl, rfl⟩ := h
+      refine ⟨hc0, ?_, fun ch hch => hq ch (by simp [hch])⟩
+      simp only [size, List.flatten_cons, List.length_append]; omega
+    · simp only [hc, ↓reduceIte, Option.some.injEq, Prod.mk.injEq] at h
+      obtain ⟨rfl, rfl⟩ := h
+      refine ⟨?_, ?_, ?_⟩
+      · intro he
+        have : (c0.take max).length = 0 := by rw [he]; rfl
+        rw [List.length_take] at this; omega
+      · simp only [size, List.flatten_cons, List.length_append, List.length_drop]; omega
+      · intro ch hch
+        simp only [List.mem_cons] at hch
+        rcases hch with rfl | hch
+        · intro he
+          have : (c0.drop max).length = 0 := by rw [he]; rfl
+          rw [List.length_drop] at this; omega
+        · exact hq ch (by simp [hch])
+
+theorem push_nonempty {q : Net} (hq : ∀ ch ∈ q, ch ≠ []) (c : Bytes) : ∀ ch ∈ push q c, ch ≠ [] := by
+  unfold push
+  by_cases h : c.isEmpty
+  · simpa [h] using hq
+  · simp only [h, Bool.false_eq_true, ↓reduceIte, List.mem_append, List.mem_singleton]
+    rintro ch (hch | rfl)
+    · exact hq ch hch
+    · intro he; simp [he] at h
+
+
+theorem dropBytes_nonempty (n : Nat) {q : Net} (hq : ∀ ch ∈ q, ch ≠ []) : ∀ ch ∈ dropBytes n q, ch ≠ [] := by
+  induction q generalizing n with
+  | nil => cases n <;> simp [dropBytes]
+  | cons c q ih =>
+    cases n with
+    | zero => simpa [dropBytes] using hq
+    | succ n =>
+      simp only [dropBytes]
+      by_cases hc : c.length ≤ n + 1
+      · simp only [hc, ↓reduceIte]
+        exact ih _ (fun ch hch => hq ch (by simp [hch]))
+      · simp only [hc, ↓reduceIte, List.mem_cons]
+        rintro ch (rfl | hch)
+        · intro he
+          have : (c.drop (n + 1)).length = 0 := by rw [he]; rfl
+          rw [List.length_drop] at this; omega
+        · exact hq ch (by simp [hch])
+
 end Net
 end O4.SC
